@@ -6,6 +6,8 @@ import (
 	"errors"
 	"fmt"
 	"io"
+	"net"
+	"os"
 	"runtime"
 	"strings"
 	"sync"
@@ -29,6 +31,8 @@ type feedItem struct {
 var (
 	errClosing = fmt.Errorf("fchan: %w", channel.ErrClosed)
 	errOther   = errors.New("fchan: transport failure")
+	// a failure that reports Timeout() and Temporary(), as a read deadline or ETIMEDOUT does: a failure like any other
+	errTimeout error = &net.OpError{Op: "read", Net: "fchan", Err: os.ErrDeadlineExceeded}
 )
 
 // fchan is the instrumented in-memory channel handed to the server (or client)
